@@ -42,7 +42,7 @@ func main() {
 	}
 }
 
-var classes = []string{"alias", "mixed", "alias", "unsized", "alias", "mixed", "wide", "alias", "sweep"}
+var classes = []string{"alias", "mixed", "collide", "unsized", "alias", "collide", "wide", "alias", "sweep"}
 
 // fixed programs run before the generated ones: the hand-found witnesses
 // (DESIGN.md section 0) and their near misses.
@@ -69,6 +69,23 @@ func main(a, b uint8) (uint8, uint8, uint8) {
 	return x, a+b, b+3
 }
 `},
+	// two live values in one allocator bucket ('a'^8 == 'c'^8^2): a{1,0} is
+	// recycled while the newer c{1,1} is live and used afterwards
+	{Class: "corpus", GIn: []string{"100"}, EIn: []string{"1000"}, Src: `package main
+
+type Acc struct {
+	lo uint32
+	hi uint32
+}
+
+func main(a, b uint32) uint32 {
+	var c Acc
+	c.lo = b * 3
+	d := a + 7
+	c.hi = d
+	return c.lo ^ c.hi
+}
+`},
 }
 
 func safeGen(r *hxlib.Rng, class string, idx int) (p *prog) {
@@ -77,6 +94,10 @@ func safeGen(r *hxlib.Rng, class string, idx int) (p *prog) {
 			p = nil
 		}
 	}()
+	if class == "collide" {
+		base := genProgram(r, []string{"alias", "mixed"}[idx%2], idx)
+		return collideProgram(r, base)
+	}
 	return genProgram(r, class, idx)
 }
 
@@ -200,6 +221,18 @@ func oneProgram(o *hxlib.Out, cf *hxlib.CommonFlags, i int, r *hxlib.Rng, p *pro
 		o.CountN("ssaop_"+op, n)
 	}
 	o.CountN("gc_steps", si.NumGC)
+	for k, n := range bucketStats(sp) {
+		if k == "bucket_max_chain" {
+			if n > o.Counters[k] {
+				o.Counters[k] = n
+			}
+			if n >= 2 {
+				o.Count(fmt.Sprintf("programs_with_bucket_chain_%d", minInt(n, 4)))
+			}
+			continue
+		}
+		o.CountN(k, n)
+	}
 	o.CountN("const_inputs_padded_or_truncated", si.ConstPad)
 	o.CountN("const_inputs_sign_padded", si.SignPad)
 
